@@ -895,4 +895,208 @@ theorem dftSq_demean_zero (x : List ℝ) : dftSq (demean x) 0 = 0 := by
   simp [RealLike.sq]
 
 end real
+/-! ## Plancherel / Parseval for the model DFT -/
+
+section real
+open RealLike
+
+/-- the angle used by the DFT, at `ℝ` -/
+noncomputable def th (N k i : ℕ) : ℝ := 2 * Real.pi * ((k * i : ℕ) : ℝ) / (N : ℝ)
+
+theorem dftReFrom_eq_sum (k N : ℕ) (l : List ℝ) : ∀ n,
+    dftReFrom k N n l = ∑ i ∈ Finset.range l.length, l.getD i 0 * Real.cos (th N k (n + i)) := by
+  induction l with
+  | nil => intro n; simp [dftReFrom, zero_lit]
+  | cons v vs ih =>
+    intro n
+    simp only [dftReFrom, ih, List.length_cons]
+    rw [Finset.sum_range_succ', angle_real]
+    simp only [List.getD_cons_zero, List.getD_cons_succ, Nat.add_zero]
+    rw [add_comm]
+    congr 1
+    apply Finset.sum_congr rfl
+    intro i _
+    have : n + 1 + i = n + (i + 1) := by omega
+    rw [this]
+
+theorem dftImFrom_eq_sum (k N : ℕ) (l : List ℝ) : ∀ n,
+    dftImFrom k N n l = ∑ i ∈ Finset.range l.length, l.getD i 0 * Real.sin (th N k (n + i)) := by
+  induction l with
+  | nil => intro n; simp [dftImFrom, zero_lit]
+  | cons v vs ih =>
+    intro n
+    simp only [dftImFrom, ih, List.length_cons]
+    rw [Finset.sum_range_succ', angle_real]
+    simp only [List.getD_cons_zero, List.getD_cons_succ, Nat.add_zero]
+    rw [add_comm]
+    congr 1
+    apply Finset.sum_congr rfl
+    intro i _
+    have : n + 1 + i = n + (i + 1) := by omega
+    rw [this]
+
+/-- `|X_k|²` as a double sum of `y_i y_j cos(θ_ki − θ_kj)` -/
+theorem dftSq_eq_double_sum (y : List ℝ) (k : ℕ) :
+    dftSq y k = ∑ i ∈ Finset.range y.length, ∑ j ∈ Finset.range y.length,
+      y.getD i 0 * y.getD j 0 * Real.cos (th y.length k i - th y.length k j) := by
+  unfold dftSq
+  rw [dftReFrom_eq_sum, dftImFrom_eq_sum]
+  simp only [RealLike.sq, Nat.zero_add]
+  rw [Finset.sum_mul_sum, Finset.sum_mul_sum, ← Finset.sum_add_distrib]
+  apply Finset.sum_congr rfl
+  intro i _
+  rw [← Finset.sum_add_distrib]
+  apply Finset.sum_congr rfl
+  intro j _
+  rw [Real.cos_sub]; ring
+
+/-- orthogonality of the cosines over a full period -/
+theorem sum_cos_diff (N i j : ℕ) (hi : i < N) (hj : j < N) :
+    ∑ k ∈ Finset.range N, Real.cos (th N k i - th N k j) = if i = j then (N : ℝ) else 0 := by
+  have hN : (N : ℝ) ≠ 0 := by
+    have : N ≠ 0 := by omega
+    exact_mod_cast this
+  by_cases hij : i = j
+  · subst hij; simp
+  · rw [if_neg hij]
+    rcases Nat.lt_or_gt_of_ne hij with hlt | hgt
+    · -- i < j : cos is even
+      have := sum_cos_eq_zero (j - i) N (by omega) (by omega)
+      rw [← this]
+      apply Finset.sum_congr rfl
+      intro k _
+      rw [← Real.cos_neg]
+      congr 1
+      unfold th
+      rw [Nat.cast_mul, Nat.cast_mul, Nat.cast_mul, Nat.cast_sub (le_of_lt hlt)]
+      field_simp
+      ring
+    · have := sum_cos_eq_zero (i - j) N (by omega) (by omega)
+      rw [← this]
+      apply Finset.sum_congr rfl
+      intro k _
+      congr 1
+      unfold th
+      rw [Nat.cast_mul, Nat.cast_mul, Nat.cast_mul, Nat.cast_sub (le_of_lt hgt)]
+      field_simp
+
+/-- **Plancherel** for the full (two-sided) DFT of a real list -/
+theorem plancherel (y : List ℝ) :
+    ∑ k ∈ Finset.range y.length, dftSq y k
+      = (y.length : ℝ) * ∑ i ∈ Finset.range y.length, y.getD i 0 * y.getD i 0 := by
+  simp only [dftSq_eq_double_sum]
+  rw [Finset.sum_comm]
+  rw [Finset.mul_sum]
+  apply Finset.sum_congr rfl
+  intro i hi
+  rw [Finset.sum_comm]
+  have : ∀ j ∈ Finset.range y.length,
+      ∑ k ∈ Finset.range y.length, y.getD i 0 * y.getD j 0 * Real.cos (th y.length k i - th y.length k j)
+        = y.getD i 0 * y.getD j 0 * (if i = j then (y.length : ℝ) else 0) := by
+    intro j hj
+    rw [← Finset.mul_sum, sum_cos_diff _ i j (Finset.mem_range.mp hi) (Finset.mem_range.mp hj)]
+  rw [Finset.sum_congr rfl this]
+  simp only [mul_ite, mul_zero]
+  rw [Finset.sum_ite_eq]
+  simp only [hi, if_true]
+  ring
+
+/-- conjugate symmetry of the DFT of a real signal: `|X_{N-k}|² = |X_k|²` -/
+theorem dftSq_reflect (y : List ℝ) (k : ℕ) (hk : k ≤ y.length) :
+    dftSq y (y.length - k) = dftSq y k := by
+  by_cases hN0 : y.length = 0
+  · have : k = 0 := by omega
+    subst this; rw [hN0]
+  have hN : (y.length : ℝ) ≠ 0 := by exact_mod_cast hN0
+  have hth : ∀ i : ℕ, th y.length (y.length - k) i = (i : ℝ) * (2 * Real.pi) - th y.length k i := by
+    intro i
+    unfold th
+    rw [Nat.cast_mul, Nat.cast_mul, Nat.cast_sub hk]
+    field_simp
+  unfold dftSq
+  rw [dftReFrom_eq_sum, dftImFrom_eq_sum, dftReFrom_eq_sum, dftImFrom_eq_sum]
+  simp only [Nat.zero_add, hth, Real.cos_nat_mul_two_pi_sub, Real.sin_nat_mul_two_pi_sub, mul_neg,
+    Finset.sum_neg_distrib, RealLike.sq]
+  ring
+
+/-- folding a sum over a full period of a reflection-symmetric sequence onto the lower half -/
+theorem fold_odd (S : ℕ → ℝ) (h : ℕ) (hS : ∀ k, 0 < k → k < 2 * h + 1 → S (2 * h + 1 - k) = S k) :
+    ∑ k ∈ Finset.range (2 * h + 1), S k = S 0 + 2 * ∑ k ∈ Finset.range h, S (k + 1) := by
+  rw [Finset.sum_range_succ', show 2 * h = h + h by ring, Finset.sum_range_add]
+  have : ∑ x ∈ Finset.range h, S (h + x + 1) = ∑ x ∈ Finset.range h, S (x + 1) := by
+    rw [← Finset.sum_range_reflect]
+    apply Finset.sum_congr rfl
+    intro x hx
+    have hx := Finset.mem_range.mp hx
+    have := hS (x + 1) (by omega) (by omega)
+    rw [← this]
+    congr 1; omega
+  rw [this]; ring
+
+theorem fold_even (S : ℕ → ℝ) (h : ℕ) (hS : ∀ k, 0 < k → k < 2 * h + 2 → S (2 * h + 2 - k) = S k) :
+    ∑ k ∈ Finset.range (2 * h + 2), S k = S 0 + 2 * ∑ k ∈ Finset.range h, S (k + 1) + S (h + 1) := by
+  rw [Finset.sum_range_succ', show 2 * h + 1 = h + (h + 1) by ring, Finset.sum_range_add,
+    Finset.sum_range_succ']
+  have : ∑ x ∈ Finset.range h, S (h + (x + 1) + 1) = ∑ x ∈ Finset.range h, S (x + 1) := by
+    rw [← Finset.sum_range_reflect]
+    apply Finset.sum_congr rfl
+    intro x hx
+    have hx := Finset.mem_range.mp hx
+    have := hS (x + 1) (by omega) (by omega)
+    rw [← this]
+    congr 1; omega
+  rw [this]
+  simp only [Nat.add_zero]
+  ring
+
+theorem list_sum_eq_finset (l : List ℝ) (f : ℝ → ℝ) :
+    (l.map f).sum = ∑ i ∈ Finset.range l.length, f (l.getD i 0) := by
+  induction l with
+  | nil => simp
+  | cons v vs ih =>
+    rw [List.map_cons, List.sum_cons, List.length_cons, Finset.sum_range_succ', ih]
+    simp only [List.getD_cons_zero, List.getD_cons_succ]
+    ring
+
+/-- bin `k ≤ N/2` of the un-windowed spectrum -/
+theorem psdPower_unwindowed (fs : ℝ) (x : List ℝ) (hx : x ≠ []) (k : ℕ) (hk : k ≤ x.length / 2) :
+    (psdPower x fs x.length).getD k 0 = scaling fs x.length * dftSq (demean x) k := by
+  have hn : 0 < x.length := List.length_pos_iff.mpr hx
+  have hdl : (demean x).length = x.length := by simp [demean]
+  rw [psdPower_def, chunks_self _ x.length hn hdl]
+  simp only [List.map_cons, List.map_nil, meanRows, List.map_map, List.length_singleton]
+  rw [getD_map_range _ _ _ _ (by omega)]
+  simp only [Function.comp, rsum, ofNat'_real, zero_lit]
+  unfold rfftSq
+  rw [hdl, getD_map_range _ _ _ _ (by omega)]
+  simp
+
+/-- `np.var`: the population variance, written without reference to the model -/
+noncomputable def variance (x : List ℝ) : ℝ :=
+  (x.map fun v => (v - x.sum / x.length) * (v - x.sum / x.length)).sum / x.length
+
+theorem sum_sq_demean (x : List ℝ) :
+    ∑ i ∈ Finset.range (demean x).length, (demean x).getD i 0 * (demean x).getD i 0
+      = (x.length : ℝ) * variance x := by
+  rw [← list_sum_eq_finset (demean x) (fun v => v * v)]
+  unfold demean mean variance
+  rw [List.map_map, rsum_real, ofNat'_real]
+  by_cases hx : (x.length : ℝ) = 0
+  · have : x = [] := by
+      have : x.length = 0 := by exact_mod_cast hx
+      exact List.length_eq_zero_iff.mp this
+    subst this; simp
+  · have h : ∀ A : ℝ, (x.length : ℝ) * (A / (x.length : ℝ)) = A := fun A => by field_simp
+    rw [h]
+    rfl
+
+/-- total (two-sided) power of the de-meaned signal -/
+theorem total_power (x : List ℝ) :
+    ∑ k ∈ Finset.range x.length, dftSq (demean x) k = (x.length : ℝ) * ((x.length : ℝ) * variance x) := by
+  have hdl : (demean x).length = x.length := by simp [demean]
+  have := plancherel (demean x)
+  rw [sum_sq_demean, hdl] at this
+  exact this
+
+end real
 end Verif.C10
